@@ -37,6 +37,8 @@ def shards(tier, seed):
         out.append(("prod_SECP112r2", dict(kind="prod", cname="SECP112r2", nvalid=4, lz=True)))
     for i in range(4 if q else 16):
         out.append(("toy_%d" % i, dict(kind="toy", part=i, parts=4 if q else 16, pmax=23 if q else 31, ncurves=3 if q else 12)))
+    for p_ in (1013, 1009, 1019, 65537) if q else (1013, 1009, 1019, 2029, 2017, 65537, 65521, 1000003):
+        out.append(("mid_p%d" % p_, dict(kind="mid", p=p_)))
     return out
 
 
@@ -344,6 +346,53 @@ def run(ctx, name, kind, **kw):
                 judge_object(ctx, c, dom, Point(cfp, P1[0], P1[1]), P1, "subgroup.outside", c.name + "|legacy|" + tag)
         else:
             ctx.count("subgroup.outside", 0)
+    elif kind == "mid":
+        # user-defined curves over 2- and 3-byte fields of every residue class (p = 5 mod 8, 1 mod 8, 3 mod 4): here the compressed
+        # form has its own length, so decompression (square root of the field's class, parity choice) is exercised for EVERY x
+        from ecdsa import curves as _c
+        from vf.ref.ec import Curve as RC
+        from vf.ref.ecdsa_ref import Domain
+        p = kw["p"]
+        rc = None
+        for b_ in range(1, 60):
+            cand = RC(p, p - 3, b_)
+            if not cand.nonsingular():
+                continue
+            # any point will do as base point; order by brute force for the small ones, else the group order is not needed:
+            P0 = next((pt for x in range(1, 200) for pt in cand.lift_x(x)), None)
+            if P0 is None:
+                continue
+            rc = cand
+            break
+        if p < 5000:
+            n = rc.point_order(P0)
+        else:
+            n = None
+        if n is None or not nt.is_prime(n):
+            # use the full group order when small, else skip the subgroup aspect: pick h = 1 only when the order is prime
+            pts_all = rc.points() if p < 70000 else None
+            N = len(pts_all) + 1 if pts_all is not None else None
+            if N is None:
+                return
+            f = nt.factor(N)
+            nbig = f[-1][0]
+            P0 = next(Q for Q in (rc.mul(N // nbig, pt) for pt in pts_all[:400]) if Q is not None)
+            n, h = nbig, N // nbig
+        else:
+            pts_all = rc.points()
+            h = (len(pts_all) + 1) // n
+        dom = Domain(p, rc.a, rc.b, P0[0], P0[1], n, h, "mid_p%d" % p)
+        cfp = lib.CurveFp(p, rc.a, rc.b, h)
+        curve = _c.Curve(dom.name, cfp, PointJacobi(cfp, P0[0], P0[1], 1, n, generator=True), (1, 3, 132, 0, 252))
+        L = dom.pbytes()
+        xs = range(p) if p < 3000 else [rng.randrange(p) for _ in range(1500)]
+        for x in xs:
+            for pre in (2, 3):
+                data = bytes([pre]) + x.to_bytes(L, "big")
+                judge_bytes(ctx, curve, dom, data, "mid.compressed", "p%dmod8|h%d" % (p % 8, h), "string", "compressed")
+        for P in (pts_all[:: max(1, len(pts_all) // 300)] if pts_all else []):
+            for enc in ("uncompressed", "hybrid"):
+                judge_bytes(ctx, curve, dom, sec1.encode_point(dom, P, enc), "mid.full", "p%dmod8" % (p % 8), "string", enc)
     elif kind == "toy":
         # toy curves whose group has a prime-order subgroup with cofactor > 1
         cands = []
@@ -362,6 +411,12 @@ def run(ctx, name, kind, **kw):
             orders = t.orders()
             G = min(P for P in t.pts if orders[P] == n)
             curve, dom = sigs.toy_lib_curve(t, G)
+            if rng2.random() < 0.5:
+                # the same domain declared without a cofactor (documented as legal): the subgroup test must still be made
+                from ecdsa import curves as _c
+                cfp0 = lib.CurveFp(dom.curve.p, dom.curve.a, dom.curve.b)
+                curve = _c.Curve(curve.name + "_noh", cfp0, PointJacobi(cfp0, G[0], G[1], 1, n, generator=True), (1, 3, 132, 0, 253))
+                ctx.count("toy_curve_without_declared_cofactor")
             p = dom.p
             sub = set()
             A = G
